@@ -1,6 +1,6 @@
 CONSTANTS
   Chunks = 256
-  FullFor = {"F1", "F2", "F3", "F4", "F5", "F6"}
+  FullFor = {"F1", "F2", "F3", "F4", "F5", "F6", "F7"}
   Variants = {FALSE, TRUE}
 INIT Init
 NEXT Next
